@@ -48,9 +48,12 @@ class FS:
         self.ext['io.BytesIO'] = lambda a, k: self._buffer(True)
         self.ext['io.StringIO'] = lambda a, k: self._buffer(False)
         self.fail_write = False
+        self.intrude = None              # callable run once, just before the first mutating operation (another context acts in between)
+        self.crash_in_dump = False       # the writing process dies inside the serializer (no handler of the interpreted code runs)
         self.ext['os.replace'] = lambda a, k: self._replace(self._s(a[0]), self._s(a[1]))
         self.ext['os.rename'] = lambda a, k: self._replace(self._s(a[0]), self._s(a[1]))
         self.ext['os.unlink'] = lambda a, k: self._unlink(self._s(a[0]), False)
+        self.ext['os.link'] = lambda a, k: self._link(self._s(a[0]), self._s(a[1]))
         self.ext['os.remove'] = lambda a, k: self._unlink(self._s(a[0]), False)
         self.ext['os.fspath'] = lambda a, k: self._s(a[0])
         # pure string functions of the standard library a store may use to build a file name: applied to the concrete strings
@@ -134,6 +137,7 @@ class FS:
         a['with_suffix'] = self._method(lambda ar, k: self.path(self._join(parent, a['stem'] + self._s(ar[0]))))
         a['replace'] = self._method(lambda ar, k: self._replace(s, self._s(ar[0])))
         a['rename'] = self._method(lambda ar, k: self._replace(s, self._s(ar[0])))
+        a['hardlink_to'] = self._method(lambda ar, k: self._link(self._s(ar[0]), s))
         a['touch'] = self._method(lambda ar, k: self._touch(s, k))
         a['joinpath'] = self._method(lambda ar, k: self.path(self._join(s, self._s(ar[0]))))
         a['iterdir'] = self._method(lambda ar, k: [self.path(p_) for p_ in sorted(self.table) if p_.rsplit('/', 1)[0] == self._norm(s) and p_ != self._norm(s)])
@@ -186,6 +190,8 @@ class FS:
         if not isinstance(mode, str):
             raise AnalysisError(f'file-system world: open() with an undecided mode {mode!r}')
         s = self._norm(s)
+        if 'r' not in mode or '+' in mode:
+            self._intrusion()
         kind = self.table.get(s, ('none',))[0]
         if kind == 'dir':
             raise ARaise('IsADirectoryError')
@@ -247,8 +253,26 @@ class FS:
         self.log.append(f'unlink({s})')
         return None
 
+    def _intrusion(self) -> None:
+        if self.intrude is not None:
+            f, self.intrude = self.intrude, None
+            f()
+
+    def _link(self, src: str, dst: str) -> None:
+        """os.link(src, dst): a second name for the file; fails when the new name exists (the exclusive publish)"""
+        src, dst = self._norm(src), self._norm(dst)
+        self._intrusion()
+        if self.table.get(src, ('none',))[0] != 'file':
+            raise ARaise('FileNotFoundError')
+        if dst in self.table:
+            raise ARaise('FileExistsError')
+        self.table[dst] = self.table[src]
+        self.log.append(f'link({src} -> {dst})')
+        return None
+
     def _replace(self, src: str, dst: str):
         src, dst = self._norm(src), self._norm(dst)
+        self._intrusion()
         if self.table.get(src, ('none',))[0] != 'file':
             raise ARaise('FileNotFoundError')
         if self.table.get(dst, ('none',))[0] == 'dir':
@@ -267,6 +291,8 @@ class FS:
             raise ARaise('UnsupportedOperation (not writable)')
         if self.fail_dump:
             raise ARaise('PicklingError (the value cannot be serialised)')
+        if self.crash_in_dump:
+            raise _Crash()
         if 'path' not in fp.attrs:
             fp.attrs['content'] = (kind, obj)            # an in-memory buffer
             return None
@@ -293,6 +319,10 @@ class FS:
 def _store(ctx: Ctx) -> ClassInfo:
     from .fs import _store_class
     return _store_class(ctx)
+
+
+class _Crash(BaseException):
+    """The process dies: no handler of the interpreted code runs (not an ARaise)."""
 
 
 class Session:
@@ -527,3 +557,93 @@ def rule_write_once_map(ctx: Ctx, out: Collector) -> None:
             uniq = sorted(set(problems))
             out.bad('FS-9', cons, where, f'the store is not a write-once map keyed exactly by the node id ({law}): ' + '; '.join(uniq[:3])
                     + (f' (+{len(uniq) - 3} more)' if len(uniq) > 3 else ''), scenarios=counts[law], failing=uniq[:20])
+
+
+def rule_exclusive_and_atomic_worlds(ctx: Ctx, out: Collector) -> None:
+    """FS-8, decided in the file-system worlds.
+    [exclusive create] Between the existence test of save and its first mutating operation another context (same model, pipeline
+    id and directory) saves the same fresh key and is acknowledged: the value it stored must survive, and this save must not
+    report success.  [atomic publish] The writing process dies inside the serializer (no clean-up runs): afterwards the key is
+    either absent (load: does-not-exist, a new save succeeds) - never present with half a value."""
+    p = ctx.p
+    st = _store(ctx)
+    save = p.lookup_method(st, 'save')
+    where = p.loc(save, save.node)
+    exists_err, missing_err = _errs(ctx)
+    # the final path of a key: what a plain save adds to the table
+    ref = Session(ctx, Oracle())
+    ref.load('warm-up')                                   # the directory of the run exists from here on
+    before = set(ref.fs.table)
+    if ref.save('K', _tok('mine'), None) != 'saved':
+        raise AnalysisError('FS-8: a plain save does not succeed in the file-system world')
+    final = [x for x in ref.fs.table if x not in before and ref.fs.table[x][0] == 'file']
+    if len(final) != 1:
+        raise AnalysisError(f'FS-8: a plain save adds {final} (one file expected)')
+    final = final[0]
+    kind = ref.fs.table[final][1][0] if ref.fs.table[final][1] else 'pickle'
+    # ---- exclusive create
+    problems, table = [], {}
+
+    def run_race(oracle: Oracle):
+        s_ = Session(ctx, oracle)
+        s_.load('warm-up')
+        other = _tok('stored and acknowledged by the other context')
+
+        def intruder():
+            s_.fs.table.setdefault(final, ('file', (kind, other)))
+        s_.fs.intrude = intruder
+        r = s_.save('K', _tok('mine'), None)
+        s_.fs.intrude = None
+        content = s_.fs.table.get(final, ('none', None))
+        kept = content[0] == 'file' and content[1] is not None and content[1][1] is other
+        return r, kept, ('absent' if content[0] != 'file' else 'the other context\'s value' if kept else 'overwritten')
+    for o in enumerate_outcomes(run_race):
+        if o[0] != 'value':
+            raise AnalysisError(f'FS-8 race world: {o[1]}')
+        r, kept, what = o[1]
+        table['another context saves the key between the test and the creation'] = f'this save: {r}; the file afterwards: {what}'
+        if not kept or r == 'saved':
+            problems.append(f'this save {("reports success" if r == "saved" else r)}, the file holds: {what}')
+    cons = f'{st.module.name}::{st.name}.save::the key is created exclusively [exclusive create]'
+    if not problems:
+        out.ok('FS-8', cons, where, 'a value another context stored between the test and the creation survives, and this save does not report success', table=table)
+    else:
+        out.bad('FS-8', cons, where, f'save tests for the key and then creates the final file without exclusivity: two contexts sharing (model, pipeline id) and '
+                f'directory both save the same fresh key (the second overwrites what the first acknowledged), and the clean-up of a failing save '
+                f'unlinks a file another context wrote; the directory is created the same way (exists, then mkdir without exist_ok: '
+                f'FileExistsError) - ' + '; '.join(sorted(set(problems))), table=table)
+    # ---- atomic publish
+    problems2, table2 = [], {}
+
+    def run_crash(oracle: Oracle):
+        s_ = Session(ctx, oracle)
+        s_.load('warm-up')
+        s_.fs.crash_in_dump = True
+        try:
+            s_.save('K', _tok('mine'), None)
+            died = False
+        except _Crash:
+            died = True
+        s_.fs.crash_in_dump = False
+        s_.fs.fail_dump = s_.fs.fail_write = False
+        if not died:
+            return 'the serializer is not reached', None, None
+        first = s_.load('K')
+        again = s_.save('K', _tok('second attempt'), None)
+        return 'died', first, again
+    for o in enumerate_outcomes(run_crash):
+        if o[0] != 'value':
+            raise AnalysisError(f'FS-8 crash world: {o[1]}')
+        how, first, again = o[1]
+        if how != 'died':
+            raise AnalysisError(f'FS-8 crash world: {how}')
+        table2['the writer dies inside the serializer'] = f'load afterwards: {first[0]} {first[1] if first[0] == "raises" else ""}; a new save: {again}'
+        if not (first[0] == 'raises' and first[1] in missing_err) or again != 'saved':
+            problems2.append(f'after the death of a writer load gives {first[0]} {first[1] if first[0] == "raises" else "a value"} and a new save {again}')
+    cons = f'{st.module.name}::{st.name}.save::the key appears only with its complete value [atomic publish]'
+    if not problems2:
+        out.ok('FS-8', cons, where, 'a writer that dies inside save leaves the key absent: load reports does-not-exist, a new save succeeds', table=table2)
+    else:
+        out.bad('FS-8', cons, where, 'the value is written in place into the final file, whose existence is the "saved" '
+                'state: a concurrent load sees a half-written artifact (EOFError), and a writer that dies inside save leaves the key '
+                'neither loadable nor savable for ever - ' + '; '.join(sorted(set(problems2))), table=table2)
